@@ -40,13 +40,15 @@ JOIN_REPLIES = [
 ]
 
 
-def scenario_for(seed, index, tier):
-    rng = make_rng('scenario', ID, seed, index)
+def scenario_for(seed, index, tier, _depth=0, _proto=None):
+    rng = make_rng('scenario', ID, seed, index, _depth)
     sup = common.supported()
     if rng.random() < 0.6:
         proto = rng.choice([p for p in LOGIN_BOUNDARY if p in sup])
     else:
         proto = rng.choice(sup)
+    if _depth:
+        proto = _proto
     ids = ids_for(proto)
     has_plugin = ids['cb.login.plugin_request'] is not None
     steps = []
@@ -97,12 +99,28 @@ def scenario_for(seed, index, tier):
         JOIN_REPLIES[0]
     user_plugin = has_plugin and plugins and rng.random() < 0.35
     seg = rng.random() < 0.5
+    play = [['ka', 77], ['expect', 1], ['disconnect', '{"text":"fin"}']]
+    logins = [{'steps': steps, 'disc': disc}]
+    if _depth == 0 and rng.random() < 0.3:
+        # the same Connection object logs in a second time: nothing of the
+        # first attempt (however it ended) may leak into the second
+        again = scenario_for(seed, index, tier, _depth=1, _proto=proto)
+        second = again['logins'][0]
+        if rng.random() < 0.6:
+            # reuse the first script's plugin message ids
+            ids1 = [s_[1] for s_ in steps if s_[0] == 'plugin']
+            own = [s_ for s_ in second['steps'] if s_[0] == 'plugin']
+            new_ids = ids1[:len(own)] + [s_[1] for s_ in own[len(ids1):]]
+            if len(set(new_ids)) == len(new_ids):
+                for s_, m_ in zip(own, new_ids):
+                    s_[1] = m_
+                    s_[2] = 'ch:%d' % m_
+        logins.append(second)
     return {
-        'proto': proto, 'steps': steps, 'auth': auth, 'join_reply': join,
-        'user_plugin_listener': bool(user_plugin), 'disc': disc,
-        'server': {'conns': [{'login': steps,
-                              'play': [['ka', 77], ['expect', 1],
-                                       ['disconnect', '{"text":"fin"}']]}]},
+        'proto': proto, 'logins': logins, 'auth': auth, 'join_reply': join,
+        'user_plugin_listener': bool(user_plugin),
+        'server': {'conns': [{'login': lg['steps'], 'play': play}
+                             for lg in logins]},
         'net': {'latency_us': rng.choice([50, 500]), 'segment': seg,
                 'short_read': seg, 'max_seg': rng.choice([1, 16, 300])},
         'sched': {'granularity': rng.choice(['io', 'io', 'line']),
@@ -120,7 +138,9 @@ def policy(rng, scenario):
 
 def execute(scenario, tape):
     w = World(scenario, tape)
-    st = {'errs': [], 'exits': [], 'log': [], 'reactor_at_ka': None}
+    n = len(scenario['logins'])
+    st = {'L': [{'errs': [], 'exits': [], 'log': [], 'reactor_at_ka': None,
+                 'req_from': 0} for _ in range(n)], 'cur': 0}
     svc = authsvc.Service(default=authsvc.Reply(
         scenario['join_reply'][0], scenario['join_reply'][1]))
     st['svc'] = svc
@@ -141,16 +161,20 @@ def execute(scenario, tape):
             kw['auth_token'] = tok
         else:
             kw['username'] = 'Offline'
+
+        def cur():
+            return st['L'][st['cur']]
         conn = Connection('sim.example', 25565,
                           allowed_versions=[scenario['proto']],
-                          handle_exception=lambda e, i: st['errs'].append(e),
-                          handle_exit=lambda: st['exits'].append(1), **kw)
+                          handle_exception=lambda e, i:
+                          cur()['errs'].append(e),
+                          handle_exit=lambda: cur()['exits'].append(1), **kw)
         w.conn = conn
 
         def on_packet(p):
-            st['log'].append(p.packet_name)
+            cur()['log'].append(p.packet_name)
             if p.packet_name == 'keep alive':
-                st['reactor_at_ka'] = type(conn.reactor).__name__
+                cur()['reactor_at_ka'] = type(conn.reactor).__name__
         conn.register_packet_listener(on_packet, Packet, early=True)
         if scenario['user_plugin_listener']:
             def on_plugin(p):
@@ -162,10 +186,14 @@ def execute(scenario, tape):
                 on_plugin, clientbound.login.PluginRequestPacket, early=True)
 
         def user():
-            st['connect'] = w.api('connect', conn.connect)
-            st['quiet'] = w.wait_until(
-                lambda: common.all_net_done(w.sim) and
-                (st['exits'] or st['errs']), 60000000)
+            for k in range(n):
+                st['cur'] = k
+                st['L'][k]['req_from'] = len(svc.requests)
+                st['L'][k]['connect'] = w.api('connect', conn.connect)
+                st['L'][k]['quiet'] = w.wait_until(
+                    lambda: common.all_net_done(w.sim) and
+                    (st['L'][k]['exits'] or st['L'][k]['errs']), 60000000)
+                st['L'][k]['req_to'] = len(svc.requests)
         w.sim.spawn(user, 'user0')
 
     import minecraft.authentication as A
@@ -180,29 +208,70 @@ def check(scenario, w, st, res):
     sim = w.sim
     V = res.violations
     ids = ids_for(scenario['proto'])
-    steps = scenario['steps']
 
     def ob(n=1):
         res.obligations += n
     res.summary = {'proto': scenario['proto'],
-                   'script': [s[0] if s[0] not in ('compress',)
-                              else 'compress(%d)' % s[1] for s in steps],
+                   'scripts': [[s[0] if s[0] not in ('compress',)
+                                else 'compress(%d)' % s[1]
+                                for s in lg['steps']]
+                               for lg in scenario['logins']],
                    'auth': scenario['auth'],
                    'join_reply': scenario['join_reply'][0],
                    'user_plugin_listener': scenario['user_plugin_listener'],
                    'end': sim.end_state}
-    res.nontrivial = len(steps) > 1
-    res.state_sigs = [tuple(s[0] for s in steps) + (scenario['auth'],)]
+    res.nontrivial = len(scenario['logins'][0]['steps']) > 1
+    res.state_sigs = [tuple(tuple(s[0] for s in lg['steps'])
+                            for lg in scenario['logins']) +
+                      (scenario['auth'],)]
     ob()
     if sim.end_state != 'done':
-        V.append(('C10/%s' % sim.end_state, repr(sim.end_detail)))
+        waits = [a.waiting for a in w.server.apps]
+        if 'plugins' in waits:
+            V.append(('C10/plugin-request-unanswered',
+                      {'end': sim.end_state, 'login': waits.index('plugins'),
+                       'outstanding': [a.plugin_outstanding
+                                       for a in w.server.apps]}))
+            return
+        if 'enc' in waits and any(a.errors for a in w.server.apps):
+            V.append(('C10/encryption-response-unreadable',
+                      {'end': sim.end_state,
+                       'server_errors': [a.errors[:2]
+                                         for a in w.server.apps]}))
+            return
+        V.append(('C10/%s' % sim.end_state,
+                  {'detail': repr(sim.end_detail),
+                   'server_errors': [a.errors[:2] for a in w.server.apps],
+                   'waiting': [a.waiting for a in w.server.apps]}))
         return
-    if not w.server.apps:
-        V.append(('C10/no-connection', None))
+    if len(w.server.apps) != len(scenario['logins']):
+        V.append(('C10/tcp-connection-count', len(w.server.apps)))
         return
-    app = w.server.apps[0]
-    errs = st['errs']
-    svc = st['svc']
+    for k, lg in enumerate(scenario['logins']):
+        check_login(scenario, w, st, res, ids, k, lg, ob)
+        if V:
+            if k:
+                V[:] = [(sig + ':second-login', d) for sig, d in V]
+            return
+    if len(scenario['logins']) > 1:
+        res.probes['second-login-on-same-connection'] = 1
+
+
+def check_login(scenario, w, st, res, ids, k, lg, ob):
+    sim = w.sim
+    V = res.violations
+    steps = lg['steps']
+    app = w.server.apps[k]
+    L = st['L'][k]
+    errs = L['errs']
+
+    class _Svc(object):
+        requests = st['svc'].requests[L['req_from']:L.get(
+            'req_to', len(st['svc'].requests))]
+    svc = _Svc
+    st = dict(st, errs=errs, exits=L['exits'], log=L['log'],
+              reactor_at_ka=L['reactor_at_ka'], quiet=L.get('quiet'))
+    scenario = dict(scenario, disc=lg['disc'])
     enc_step = next((s for s in steps if s[0] == 'encrypt'), None)
     ends_ok = steps[-1][0] == 'success'
     # --- join request
@@ -372,12 +441,18 @@ def check(scenario, w, st, res):
 
 
 def shrink_scenario(sc):
-    steps = sc['steps']
-    for j in range(len(steps) - 1):
-        c = copy.deepcopy(sc)
-        del c['steps'][j]
-        c['server']['conns'][0]['login'] = c['steps']
-        yield c
+    if len(sc['logins']) > 1:
+        for keep in (1, 0):
+            c = copy.deepcopy(sc)
+            c['logins'] = [c['logins'][keep]]
+            c['server']['conns'] = [c['server']['conns'][keep]]
+            yield c
+    for k, lg in enumerate(sc['logins']):
+        for j in range(len(lg['steps']) - 1):
+            c = copy.deepcopy(sc)
+            del c['logins'][k]['steps'][j]
+            c['server']['conns'][k]['login'] = c['logins'][k]['steps']
+            yield c
     for k in ('segment', 'short_read'):
         if sc['net'].get(k):
             c = copy.deepcopy(sc)
@@ -407,7 +482,7 @@ def evidence(tier, seed, m, d):
              '2^31-1}; server ids \'\', \'-\', random; 1024/2048-bit keys; '
              'verify tokens of 1..64 bytes; with/without auth token and a '
              'session-service stub whose join reply may be an error; '
-             'optional user plugin listener; protocols either side of '
+             'optional user plugin listener; in 30% of the cases the same Connection logs in a second time with a fresh script (often reusing plugin message ids); protocols either side of '
              '385/391/707; optional segmentation; evaluations = oracle '
              'obligations; non-trivial = script with more than one step; '
              'distinct = distinct run digests',
